@@ -33,7 +33,7 @@ package age
 //@   modifies nothing
 
 //@ func headerMAC(fileKey, hdr) (mac, err)
-//@   requires hdr != nil
+//@   requires hdr != nil && (forall j in 0..len(hdr.Recipients) :: hdr.Recipients[j] != nil)
 //@   call hkdf.New#1 requires isfunc(arg0, "crypto/sha256.New") && bytes(arg1) == bytes(fileKey) && len(arg2) == 0 && bytes(arg3) == "header"   [C03 C05]
 //@   call hmac.New#1 requires isfunc(arg0, "crypto/sha256.New")                                                                         [C03 C05]
 //@   ensures#val err == nil ==> len(mac) == 32 && bytes(mac) == hmac256(sub(hkdfstream(old(bytes(fileKey)), "", "header"), 0, 32), hdrbytes(hdr))   [C03 C05]
@@ -43,8 +43,8 @@ package age
 
 //@ func Decrypt(src, identities) (rd, err)
 //@   requires src != nil && (forall j in 0..len(identities) :: identities[j] != nil)
-//@   loop 1 invariant -1 <= rangeindex && rangeindex < len(hdr.Recipients) && len(stanzas) == rangeindex+1
-//@   loop 1 invariant#copy disjoint(stanzas, hdr.Recipients) && (forall j in 0..rangeindex+1 :: stanzas[j] == hdr.Recipients[j])     [C01]
+//@   loop 1 invariant -1 <= rangeindex && rangeindex < len(hdr.Recipients) && len(stanzas) == rangeindex+1 && disjoint(stanzas, hdr.Recipients) && (forall j in 0..len(hdr.Recipients) :: hdr.Recipients[j] != nil)
+//@   loop 1 invariant#copy forall j in 0..rangeindex+1 :: stanzas[j] == hdr.Recipients[j]     [C01]
 //@   loop 1 decreases len(hdr.Recipients) - rangeindex
 //@   loop 2 invariant -1 <= rangeindex && rangeindex < len(identities)
 //@   loop 2 invariant#count $uwn == old($uwn) + rangeindex + 1                                                                        [C01 C04]
